@@ -149,29 +149,54 @@ theorem c05_initial_shape (n : Nat) (k1 : Ix) (h1 : stage1InG n k1 = true) :
     integer list (entries in `-len .. len-1`, i.e. valid for numpy) whose *resolved* positions are
     not strictly increasing — unsorted or repeated entries — raises TypeError; it is never
     answered with data.  (A list with negative entries whose resolved positions happen to be
-    strictly increasing is answered exactly as numpy would, see `c05_axis`' proof; the
-    no-lookup/negative-entry combination is covered by the correspondence run only.) -/
+    strictly increasing is answered exactly as numpy would, see `c05_axis`' proof and
+    `c05_negative_list`; out-of-bounds entries are refused, `c05_list_out_of_bounds`.) -/
 theorem c05_reject_unsorted (n : Nat) (L : List Int) (k1 : Ix) (l : List Int) (ks : List Nat) (vs : List Int)
     (hlk : mkLookup n k1 = .ok (some L))
     (hks : normList L.length l = .ok ks) (hvs : ks.mapM (getNat L) = .ok vs)
-    (hne : vs ≠ []) (hbad : strictInc vs = false) :
+    (hne : vs ≠ []) (hin : ∀ x ∈ normNeg n vs, 0 ≤ x ∧ x < n) (hbad : strictInc (normNeg n vs) = false) :
     getitem1 n k1 (.list l) = .error .type := by
   unfold getitem1
   rw [hlk]
   simp only [bind, Except.bind, mapThrough, indexList, hks, hvs, pure, Except.pure]
-  cases vs with
-  | nil => exact absurd rfl hne
-  | cons v t => simp [axisSelect, hbad]
+  rw [axisSelect_arr_norm n vs hne hin]
+  simp [axisSelectArr, hbad]
 
+/-- without a first-stage lookup: a list that is unsorted or repeats a position once its negative
+    entries are counted from the end is rejected (TypeError) -/
 theorem c05_reject_unsorted_nolookup (n : Nat) (k1 : Ix) (l : List Int)
-    (hlk : mkLookup n k1 = .ok none) (hne : l ≠ []) (hbad : strictInc l = false) :
+    (hlk : mkLookup n k1 = .ok none) (hne : l ≠ []) (hin : ∀ x ∈ normNeg n l, 0 ≤ x ∧ x < n)
+    (hbad : strictInc (normNeg n l) = false) :
     getitem1 n k1 (.list l) = .error .type := by
   unfold getitem1
   rw [hlk]
   simp only [bind, Except.bind, mapThrough]
-  cases l with
-  | nil => exact absurd rfl hne
-  | cons v t => simp [axisSelect, hbad]
+  rw [axisSelect_arr_norm n l hne hin]
+  simp [axisSelectArr, hbad]
+
+/-- **Negative integers in a sequence** (no first-stage lookup): entries count from the end as in
+    numpy; a list that is then in bounds and strictly increasing reads exactly numpy's positions
+    (the behaviour since the repair in /repo 2988895; before it `[-1, 0, 1]` on an axis of length 2
+    was answered with rows `[1, 1, 1]`) -/
+theorem c05_negative_list (n : Nat) (k1 : Ix) (l : List Int)
+    (hlk : mkLookup n k1 = .ok none) (hne : l ≠ []) (hin : ∀ x ∈ normNeg n l, 0 ≤ x ∧ x < n)
+    (hinc : strictInc (normNeg n l) = true) :
+    getitem1 n k1 (.list l) = .ok (.many ((normNeg n l).map Int.toNat)) := by
+  unfold getitem1
+  rw [hlk]
+  simp only [bind, Except.bind, mapThrough]
+  rw [axisSelect_arr_norm n l hne hin]
+  exact axisSelectArr_spec n (normNeg n l) (by cases l <;> simp_all [normNeg]) hinc hin
+
+/-- entries that are out of bounds even after counting from the end are refused (IndexError),
+    never answered -/
+theorem c05_list_out_of_bounds (n : Nat) (k1 : Ix) (l : List Int)
+    (hlk : mkLookup n k1 = .ok none) (h : ∃ x ∈ normNeg n l, x < 0 ∨ x ≥ (n : Int)) :
+    getitem1 n k1 (.list l) = .error .index := by
+  unfold getitem1
+  rw [hlk]
+  simp only [bind, Except.bind, mapThrough]
+  exact axisSelect_arr_oob n l h
 
 /-- spec for all axes -/
 def specAll : List Nat → List Ix → List Ix → Except Err (List Sel)
@@ -308,6 +333,11 @@ example : concatHead [3, 3] (.slice (some 1) (some 6) (some 2)) = concatSpec [3,
 example : concatHead [2, 0, 3] (.list [1, 2, 4]) = concatSpec [2, 0, 3] (.list [1, 2, 4]) := by decide
 example : concatHead [2, 0, 3] (.list [1, 2, 4]) = .ok (false, [(0, 1), (2, 0), (2, 2)]) := by decide
 example : headInG (total [2, 0, 3]) (.list [1, 2, 4]) = true ∧ headInG (total [2, 0, 3]) (.slice (some (-4)) none (some 3)) = true := by decide
+-- negative entries count from the end; [-1, 0, 1] on an axis of length 2 is rejected, not answered with
+-- rows [1, 1, 1] (the defect repaired in /repo commit 2988895)
+example : getitem1 2 (.slice none none none) (.list [-1, 0, 1]) = .error .type := by decide
+example : getitem1 6 (.slice none none none) (.list [-3, -2, -1]) = .ok (.many [3, 4, 5]) := by decide
+example : getitem1 2 (.slice none none none) (.list [-3]) = .error .index := by decide
 -- repeated equal entries are rejected (the defect repaired in /repo commit 35c2508)
 example : getitem1 6 (.slice none none none) (.list [2, 2]) = .error .type := by decide
 -- all-False mask is an empty selection (the defect repaired in /repo commit 51619a3)
